@@ -1138,11 +1138,33 @@ def rule_RG(run: Run) -> RuleResult:
     ctx.no_inline = ({h_.node.name for h_ in helpers} - registering) | {"lift"}
     ps = analyse_method(ctx, im, "__init__")
     res.count("paths", len(ps))
+    # private methods of other classes that register on behalf of their caller (``member._register_all(aliases, overload)``):
+    # a method whose every iteration of its first parameter ends in ``self.register(element, value)``
+    bulk: Dict[str, tuple] = {}
+    for ci_ in repo.classes.values():
+        if ci_.module.name.startswith("labrea.mypy"):
+            continue
+        for mn_, mfn_ in ci_.methods.items():
+            if not mn_.startswith("_") or mn_.startswith("__") or not any(astu.short_name(c) == "register" for c in astu.calls_in(mfn_)):
+                continue
+            mps_ = astu.param_names(mfn_)
+            if len(mps_) < 2:
+                continue
+            good_ = True
+            seen_ = False
+            for p_ in analyse_function(Ctx(repo), ci_.module, mfn_, cls=ci_):
+                for e_ in p_.events:
+                    if e_.kind == "call" and e_.text == "register":
+                        seen_ = True
+                        if not (len(e_.args) == 2 and e_.args[0].key() == f"elem({mps_[0]})" and not getattr(e_.args[0], "partial", False) and e_.args[1].key() == mps_[1]):
+                            good_ = False
+            if seen_:
+                bulk[mn_] = (ci_.qualname, good_)
     n_reg = 0
     bad = None
     reg_events = {}
     for p in ps:
-        idx = [i for i, e in enumerate(p.events) if e.kind == "call" and e.text.split(".")[-1] in ("register", "register()")]
+        idx = [i for i, e in enumerate(p.events) if e.kind == "call" and e.text.split(".")[-1] in ("register", "register()") or (e.kind == "call" and e.text in bulk)]
         if not idx:
             continue
         n_reg += 1
@@ -1164,6 +1186,12 @@ def rule_RG(run: Run) -> RuleResult:
     for (fl_, ln_), e in sorted(reg_events.items()):
         tk = e.target.key() if e.target is not None else ""
         ak = e.args[0].key() if e.args else ""
+        if e.text in bulk:
+            # the whole collection of aliases handed to a method that registers under every element of it
+            good = tk.startswith("elem(elem(") and ak == "aliases" and bulk[e.text][1]
+            how.append(f"{tk[:50]}.{e.text}({ak[:30]}, …) [{bulk[e.text][0]}.{e.text} registers under every element: {bulk[e.text][1]}]")
+            ok = ok and good
+            continue
         good = tk.startswith("elem(elem(") and ak == "elem(aliases)" and not getattr(e.args[0], "partial", False)
         how.append(f"{tk[:50]}.register({ak[:30]}, …)")
         ok = ok and good
@@ -1556,6 +1584,56 @@ def _always_raises(body) -> bool:
     return False
 
 
+def _typed_exit(ci) -> Optional[list]:
+    """[(type names, always raises or suppresses)] for a context-manager class whose ``__exit__`` acts on the exception by
+    type (``if isinstance(exc, T): raise … from exc`` / ``return True``), else None."""
+    r = ci.find_method("__exit__") if ci is not None else None
+    if r is None or ci.find_method("__enter__") is None:
+        return None
+    xfn = r[1]
+    names = [a.arg for a in xfn.args.posonlyargs + xfn.args.args]
+    if len(names) < 3:
+        return None
+    out = []
+    for s_ in xfn.body:
+        if isinstance(s_, ast.Expr) and isinstance(s_.value, ast.Constant):
+            continue
+        if isinstance(s_, ast.If) and isinstance(s_.test, ast.Call) and isinstance(s_.test.func, ast.Name) and len(s_.test.args) == 2 \
+                and ((s_.test.func.id == "isinstance" and isinstance(s_.test.args[0], ast.Name) and s_.test.args[0].id == names[2])
+                     or (s_.test.func.id == "issubclass" and isinstance(s_.test.args[0], ast.Name) and s_.test.args[0].id == names[1])) and not s_.orelse:
+            ty = s_.test.args[1]
+            types = [ast.unparse(t) for t in (ty.elts if isinstance(ty, ast.Tuple) else [ty])]
+            last = s_.body[-1] if s_.body else None
+            suppress = isinstance(last, ast.Return) and isinstance(last.value, ast.Constant) and last.value.value is True
+            out.append((types, _always_raises(s_.body), suppress, s_.lineno))
+            continue
+        if isinstance(s_, ast.Return) and (s_.value is None or (isinstance(s_.value, ast.Constant) and not s_.value.value)):
+            continue
+        return None
+    return out or None
+
+
+def _cm_handlers(repo, m, fn) -> list:
+    """(with node, class, typed exits) for every ``with`` of the function whose manager is an instance of a private
+    context-manager class of the repository with a typed ``__exit__`` (built in place or bound to a local first)."""
+    amap = astu.single_assign_map(fn)
+    out = []
+    for w in astu.walk_no_nested(fn):
+        if not isinstance(w, ast.With):
+            continue
+        for it in w.items:
+            ce = it.context_expr
+            if isinstance(ce, ast.Name) and ce.id in amap:
+                ce = amap[ce.id]
+            if isinstance(ce, ast.Call) and isinstance(ce.func, (ast.Name, ast.Attribute)):
+                ci = repo.resolve_class(m, ce.func)
+                if ci is not None and ci.name.startswith("_") and not (ci.is_subclass_of("Evaluatable") or ci.is_subclass_of("Effect")):
+                    te = _typed_exit(ci)
+                    if te:
+                        out.append((w, ci, te))
+    return out
+
+
 def rule_CD(run: Run) -> RuleResult:
     res = RuleResult("R-CD")
     repo = run.repo
@@ -1639,6 +1717,24 @@ def rule_CD(run: Run) -> RuleResult:
                         "handler re-raises" if not swallows else "handler swallows evaluation errors at a point that is not a documented fall-through", nec)
             else:
                 res.add(f"{q}:except {','.join(types)} (specific)", True, m.relpath, h.lineno, "specific exception type", nec)
+        # the same for a ``with`` whose manager translates exceptions by type in its __exit__ (a private context-manager class)
+        for w, ci_cm, exits in _cm_handlers(repo, m, fn):
+            for types, raises_, suppress_, ln_ in exits:
+                n += 1
+                short = [t.split(".")[-1] for t in types]
+                broad = [t for t in short if t in ("Exception", "BaseException")]
+                if broad:
+                    res.add(f"{q}:with {ci_cm.name} (broad)", raises_ and not suppress_, m.relpath, w.lineno,
+                            "translates and re-raises" if raises_ else f"{ci_cm.name}.__exit__ swallows {broad}", nec)
+                    continue
+                catches_eval = [t for t in short if exc_is_subclass(repo, "KeyNotFoundError", t) and t != "KeyNotFoundError"]
+                if q in ft_of:
+                    seen_ft.add(ft_of[q])
+                    res.add(f"{q}:fall-through handler catches EvaluationError exactly", short == ["EvaluationError"], m.relpath, w.lineno,
+                            f"with {ci_cm.name}: __exit__ acts on {','.join(short)}", nec)
+                elif catches_eval:
+                    res.add(f"{q}:with {ci_cm.name} acting on {','.join(short)} is not a registered fall-through point", raises_ and not suppress_, m.relpath, w.lineno,
+                            "the manager re-raises" if raises_ and not suppress_ else "the manager swallows evaluation errors at a point that is not a documented fall-through", nec)
     # calls of user-supplied callables (bodies, predicates, steps, callbacks) must
     # not sit inside a try that catches anything but the EvaluationError family
     n_calls = 0
